@@ -12,35 +12,42 @@ from mc import core, e2e, cmaptext, driver
 from mc.coma import (AlignmentResultRow, AlignmentResults, AlignmentSegment, AlignmentSegmentsWithResolvedConflicts,
                      ScoredAlignedPair, AlignedPair, PositionWithSiteId as P, Peak, OpticalMap)
 
-RULE = ("A: every tuple of 0..3 records drawn from an 8-record catalogue, written by the real writer and read back by the real "
+RULE = ("A: every tuple of 0..3 (quick) / 0..4 (thorough) records drawn from a 12-record catalogue (two references, one query on both, two-digit label numbers, awkward roundings), written by the real writer and read back by the real "
         "reader with both pair parsers, compared field by field with an independent parse of the written text; non-trivial = file "
-        "has 0 or 1 record, a one-pair record or a second-pass record. B: every file of the standard worlds x 4 modes")
+        "has 0 or 1 record, a one-pair record, a second-pass record or records on two references. B: every file of the standard worlds x 4 modes")
 ASSUMPTIONS = ["'written values' are taken from the file text with mc/xmaptext.py"]
 
-REF = (5, 90000.7, [1000.0, 11000.5, 26000.0, 41000.0, 43000.2, 61000.0, 80000.0])
-QRY = [(12, 60000.0, [500.0, 10500.5, 25500.0, 40500.0, 42500.2, 60500.0]), (3, 30000.0, [0.0, 10000.0, 25000.0, 29000.0])]
-# (query id, pairs, reverse, alignedRest, confidence)
+REFS = [(5, 90000.7, [1000.0, 11000.5, 26000.0, 41000.0, 43000.2, 61000.0, 80000.0]),
+        (8, 140000.0, [2000.0, 9000.0, 21000.5, 30000.0, 38000.0, 51000.0, 60000.0, 72000.0, 80000.3, 95000.0, 110000.0, 131000.0])]
+QRY = [(12, 60000.0, [500.0, 10500.5, 25500.0, 40500.0, 42500.2, 60500.0]), (3, 30000.0, [0.0, 10000.0, 25000.0, 29000.0]),
+       (40, 130000.0, [700.0, 7700.0, 19700.5, 28700.0, 36700.0, 49700.0, 58700.0, 70700.0, 78700.3, 93700.0, 108700.0])]
+# (query id, reference id, pairs, reverse, alignedRest, confidence)
 CATALOGUE = [
-    (12, [(2, 2)], False, False, 1000.0),
-    (12, [(1, 1), (2, 2), (3, 3)], False, False, 2876.565),
-    (12, [(1, 1), (3, 2), (4, 4), (6, 6)], False, False, 0.005),
-    (12, [(1, 6), (2, 5), (4, 3)], True, False, 99.995),
-    (3, [(4, 3), (6, 4)], False, True, 1750.25),
-    (3, [(2, 4), (3, 3), (4, 2), (5, 1)], True, True, 3999.999),
-    (12, [(5, 5), (6, 6)], False, True, 12.3),
-    (3, [(7, 1)], True, False, 1e-9),
+    (12, 5, [(2, 2)], False, False, 1000.0),
+    (12, 5, [(1, 1), (2, 2), (3, 3)], False, False, 2876.565),
+    (12, 5, [(1, 1), (3, 2), (4, 4), (6, 6)], False, False, 0.005),
+    (12, 5, [(1, 6), (2, 5), (4, 3)], True, False, 99.995),
+    (3, 5, [(4, 3), (6, 4)], False, True, 1750.25),
+    (3, 5, [(2, 4), (3, 3), (4, 2), (5, 1)], True, True, 3999.999),
+    (12, 5, [(5, 5), (6, 6)], False, True, 12.3),
+    (3, 5, [(7, 1)], True, False, 1e-9),
+    # the same query on a second reference; two-digit label numbers on both maps; confidences that round awkwardly
+    (12, 8, [(1, 1), (2, 2), (3, 3)], False, False, 2.675),
+    (40, 8, [(2, 1), (3, 2), (4, 3), (5, 4), (6, 5), (7, 6), (8, 7), (9, 8), (10, 9), (11, 10), (12, 11)], False, False, 123456.789),
+    (40, 8, [(9, 11), (10, 10), (11, 9), (12, 7)], True, False, 0.125),
+    (3, 8, [(10, 1), (12, 4)], False, True, 1000000.0),
 ]
 
 
 def _maps():
-    ref = OpticalMap(REF[0], int(REF[1]), list(REF[2]))
+    refs = {m[0]: OpticalMap(m[0], int(m[1]), list(m[2])) for m in REFS}
     qs = {m[0]: OpticalMap(m[0], m[1], list(m[2])).trim() for m in QRY}
-    return ref, qs
+    return refs, qs
 
 
-def build_row(rec, ref, qs):
-    qid, pairs, rev, rest, conf = rec
-    q = qs[qid]
+def build_row(rec, refs, qs):
+    qid, rid, pairs, rev, rest, conf = rec
+    q, ref = qs[qid], refs[rid]
     qlab = {x.siteId: x for x in q.getPositionsWithSiteIds(rev)}
     rlab = {x.siteId: x for x in ref.getPositionsWithSiteIds()}
     pos = [ScoredAlignedPair(AlignedPair(rlab[r], qlab[ql]), conf / len(pairs)) for r, ql in pairs]
@@ -57,11 +64,11 @@ def check_case(idxs, acc):
     d = core.scratch_dir()
     rp, qp, op = os.path.join(d, 'r18.cmap'), os.path.join(d, 'q18.cmap'), os.path.join(d, 'o18.xmap')
     with open(rp, 'w') as f:
-        f.write(cmaptext.text([REF]))
+        f.write(cmaptext.text(REFS))
     with open(qp, 'w') as f:
         f.write(cmaptext.text(QRY))
-    ref, qs = _maps()
-    rows = [build_row(CATALOGUE[i], ref, qs) for i in idxs]
+    refs, qs = _maps()
+    rows = [build_row(CATALOGUE[i], refs, qs) for i in idxs]
     args = Args.parse(driver.cli_args(rp, qp, op, 'best'))
     found = []
     try:
@@ -75,8 +82,8 @@ def check_case(idxs, acc):
         for fobj in (args.referenceFile, args.queryFile, args.outputFile):
             fobj.close()
     if txt is not None:
-        readers = (XmapReader(XmapAlignmentPairWithDistanceParser([ref], list(qs.values()))), XmapReader(), [ref], list(qs.values()))
-        rmaps, qmaps = cmaptext.parse(cmaptext.text([REF])), cmaptext.parse(cmaptext.text(QRY))
+        readers = (XmapReader(XmapAlignmentPairWithDistanceParser(list(refs.values()), list(qs.values()))), XmapReader(), list(refs.values()), list(qs.values()))
+        rmaps, qmaps = cmaptext.parse(cmaptext.text(REFS)), cmaptext.parse(cmaptext.text(QRY))
         probs, n = e2e.readback_problems(txt, readers, rmaps, qmaps, only_valid=False)
         if n != len(rows):
             found.append(('written-record-count', 'wrote %d rows, file has %d records' % (len(rows), n), 'writer', {}))
@@ -96,7 +103,7 @@ def check_case(idxs, acc):
         acc.evals += 1
         acc.transitions += 3
         acc.state(tuple(idxs))
-        if len(idxs) <= 1 or any(len(CATALOGUE[i][1]) == 1 or CATALOGUE[i][3] for i in idxs):
+        if len(idxs) <= 1 or any(len(CATALOGUE[i][2]) == 1 or CATALOGUE[i][4] for i in idxs) or len({CATALOGUE[i][1] for i in idxs}) > 1:
             acc.nontriv(tuple(idxs))
         acc.classes['records=%d' % len(idxs)] += 1
         case = dict(records=list(idxs))
@@ -111,8 +118,8 @@ class Synthetic(core.Layer):
 
     def __init__(self, maxrec):
         self.cases = [t for k in range(0, maxrec + 1) for t in itertools.product(range(len(CATALOGUE)), repeat=k)]
-        self.chunk = 8
-        self.bounds = dict(records=[0, maxrec], catalogue=[[c[0], c[1], '-' if c[2] else '+', c[3], c[4]] for c in CATALOGUE])
+        self.chunk = 24
+        self.bounds = dict(records=[0, maxrec], catalogue=[[c[0], c[1], c[2], '-' if c[3] else '+', c[4], c[5]] for c in CATALOGUE])
         self.rule = 'all %d tuples of 0..%d catalogue records' % (len(self.cases), maxrec)
 
     def nblocks(self):
@@ -129,6 +136,6 @@ class Synthetic(core.Layer):
 
 def layers(tier, seed):
     ws = e2e.std_worlds(tier, seed, depth2=False)
-    return [Synthetic(2 if tier == 'quick' else 3),
+    return [Synthetic(3 if tier == 'quick' else 4),
             e2e.WorldLayer('B:worlds', ws, e2e.judge_c18, bounds=dict(worlds=len(ws), modes=list(e2e.MODES)),
                            rule='every file (main,_1,_2) of every standard world x 4 modes, read back with both parsers')]
